@@ -68,6 +68,38 @@ fn main() {
             }
             i
         };
+        if mode == "steps" || mode == "steps-std" {
+            // REPL style: the program text is a list of steps separated by U+001E; each step is parsed against and run
+            // (unscoped) in ONE interpreter that is kept across the steps.  Answer: status `ok`, text =
+            // `<status>:<text>` of every step joined by U+001E.
+            let mut outs: Vec<String> = Vec::new();
+            let mut live = mk(if mode == "steps" { "nostd" } else { "std" });
+            for step in prog.split('\u{1e}') {
+                let r = catch_unwind(AssertUnwindSafe(|| match Code::parse(&live, step) {
+                    Err(e) => ("parse_error", kind(&e)),
+                    Ok(code) => match code.exec_unscoped(&mut live) {
+                        Ok(v) => ("ok", format!("{v:?}")),
+                        Err(e) => ("exec_error", kind(&e)),
+                    },
+                }));
+                match r {
+                    Ok((s, t)) => outs.push(format!("{s}:{t}")),
+                    Err(p) => {
+                        outs.push(format!(
+                            "panic:{}",
+                            p.downcast_ref::<String>()
+                                .cloned()
+                                .or_else(|| p.downcast_ref::<&str>().map(|s| s.to_string()))
+                                .unwrap_or_default()
+                        ));
+                        break;
+                    }
+                }
+            }
+            let mut o = out.lock();
+            writeln!(o, "{id}\tok\t{}", hex(&outs.join("\u{1e}"))).unwrap();
+            continue;
+        }
         let res = catch_unwind(AssertUnwindSafe(|| {
             let interpreter = mk(mode);
             match Code::parse(&interpreter, &prog) {
